@@ -153,6 +153,14 @@ def shard_bfs(arg):
     return res
 
 
+def shard_bfs_multi(args):
+    """several meshes with the same number of cells and different cell sizes / placements in one shard (used with object pooling)"""
+    res = core.Res()
+    for a in args:
+        res.merge(shard_bfs(a))
+    return res
+
+
 def run(ctx):
     th = ctx.thorough
     S = space.S_THORO if th else space.S_QUICK
@@ -194,6 +202,12 @@ def run(ctx):
                         cfg2.append((mname, rname, iname, 1.0 if iname == "explicit" else 0.5, ("w", wv), space.S_QUICK, 3))
     cfg2.sort(key=lambda c: -(len(c[5]) ** (c[4][1] if c[4][0] == "uni" else len(c[4][1]))))
     ctx.pmap("bfs-range-tvd", shard_bfs, cfg2)
+    multi = []
+    for mname in ("convection+", "convection-", "burgers"):
+        for rname in recs:
+            for iname in (SSP if th else ["explicit", "rk3ssp"]):
+                multi.append([(mname, rname, iname, 0.5, mspec, space.S_QUICK, 2) for mspec in (("uni", 4, 4.0, 0.0), ("uni", 4, 0.4, -0.05), ("uni", 4, 16.0, 3.0), ("uni", 4, 1.0, 0.0))])
+    ctx.pmap("bfs-reused-objects", core.Pooled(shard_bfs_multi), multi)
 
 
 def _tup(x):
